@@ -10,13 +10,14 @@ from vlib.runner import hyp_explore
 
 LEVEL = "exploration"
 RULE = ("Hypothesis-generated builder programs (vlib/progen.py: typed, def-before-use; assignments, array loops incl. "
-        "zero-trip and two-level, if/else nesting <= 3, yields, fail/switch/restart/raise, user functions with "
+        "zero-trip, two-level and triangular nests, accumulation loops, stencil reads valid only under their guard, if/else nesting <= 3, yields, fail/switch/restart/raise, user functions with "
         "positional/keyword arguments and 0/1/2 results, exact built-ins, 1-3 phases) x initial states x run plans "
         "(max_steps 1-6 or an end time, event cap 60). Three executions are compared exactly: program-order reference "
         "executor (exact rationals), NumpyInterpreter, class emitted by PythonCodeGenerator: events, persistent state "
         "and next phase after every step, kind of raised error. Non-trivial = >= 3 operations and the run took a false "
         "guard / ran a loop / yielded / failed / switched / raised / visited a second phase; distinct by canonical JSON "
-        "of (program, initial state, plan).")
+        "of (program, initial state, plan). Plus an exhaustive table of 30 special constants (non-finite, NumPy scalars, huge/tiny, "
+        "negative zero, complex) x 18 contexts run through interpreter and generated class and compared with plain Python arithmetic.")
 ASSUMPTIONS = ["values stay in the exactly representable (dyadic) domain; a run is compared up to the first step in which the reference leaves it",
                "inexact built-ins (norm_2, linear_solve, svd) and print are not generated",
                "phase names are identifier-shaped; <ret_*> names are not generated",
